@@ -299,3 +299,315 @@ theorem onAckRcvd_keeps {s s' : St} {i : Inp} {e : Nat} {a : Ack} {l : List (Nat
       have k5 := setTimer_win h3 k4.1
       have k6 := ackPost_win h4 k5.1
       exact k0.keeps.trans (k1.trans (k2.trans (k3.trans (k4.trans (k5.trans k6)))).keeps)
+
+/-! ### `step` -/
+
+theorem step_keeps {s s' : St} {i : Inp} {op : Op} {o : Out} (h : step s i op = .ok (s', o)) (hw : WinOk s) :
+    WinOk s' ∧ s'.mds = s.mds := by
+  cases op with
+  | sent e pn elic infl size =>
+    simp only [step, ebind_ok] at h
+    obtain ⟨r, h1, h2⟩ := h; cases h2
+    exact ⟨(onPktSent_win h1 hw).1, (onPktSent_win h1 hw).2.1⟩
+  | ack e a =>
+    simp only [step, ebind_ok] at h
+    obtain ⟨r, h1, h2⟩ := h; cases h2
+    obtain ⟨r1, r2⟩ := r
+    exact ⟨(onAckRcvd_keeps h1 hw).1, (onAckRcvd_keeps h1 hw).2.1⟩
+  | tick dt =>
+    simp only [step, ebind_ok] at h
+    obtain ⟨r, h1, h2⟩ := h; cases h2
+    obtain ⟨r1, r2, r3⟩ := r
+    have k := doTick_win h1 (s := advance s dt) hw
+    exact ⟨k.1, k.2.1⟩
+  | rcvd =>
+    simp only [step, ebind_ok] at h
+    obtain ⟨r, h1, h2⟩ := h; cases h2
+    obtain ⟨r1, r2⟩ := r
+    exact ⟨(onDatagramRcvd_win h1 hw).1, (onDatagramRcvd_win h1 hw).2.1⟩
+  | discard e =>
+    simp only [step, ebind_ok] at h
+    obtain ⟨r, h1, h2⟩ := h; cases h2
+    exact ⟨(discardEpoch_win h1 hw).1, (discardEpoch_win h1 hw).2.1⟩
+  | hskey => simp only [step] at h; cases h; exact ⟨hw, rfl⟩
+  | hsack => simp only [step] at h; cases h; exact ⟨hw, rfl⟩
+  | confirmed => simp only [step] at h; cases h; exact ⟨hw, rfl⟩
+  | grant => simp only [step] at h; cases h; exact ⟨hw, rfl⟩
+  | limit => simp only [step] at h; cases h; exact ⟨hw, rfl⟩
+
+/-- every operation other than an acknowledgement leaves the window where it is or shrinks it -/
+theorem step_nonack_le {s s' : St} {i : Inp} {op : Op} {o : Out} (h : step s i op = .ok (s', o)) (hw : WinOk s)
+    (hop : ∀ e a, op ≠ .ack e a) : s'.cwnd ≤ s.cwnd := by
+  cases op with
+  | sent e pn elic infl size =>
+    simp only [step, ebind_ok] at h
+    obtain ⟨r, h1, h2⟩ := h; cases h2
+    exact (onPktSent_win h1 hw).2.2.2
+  | ack e a => exact absurd rfl (hop e a)
+  | tick dt =>
+    simp only [step, ebind_ok] at h
+    obtain ⟨r, h1, h2⟩ := h; cases h2
+    obtain ⟨r1, r2, r3⟩ := r
+    exact (doTick_win h1 (s := advance s dt) hw).2.2.2
+  | rcvd =>
+    simp only [step, ebind_ok] at h
+    obtain ⟨r, h1, h2⟩ := h; cases h2
+    obtain ⟨r1, r2⟩ := r
+    exact (onDatagramRcvd_win h1 hw).2.2.2
+  | discard e =>
+    simp only [step, ebind_ok] at h
+    obtain ⟨r, h1, h2⟩ := h; cases h2
+    exact (discardEpoch_win h1 hw).2.2.2
+  | hskey => simp only [step] at h; cases h; exact Nat.le_refl _
+  | hsack => simp only [step] at h; cases h; exact Nat.le_refl _
+  | confirmed => simp only [step] at h; cases h; exact Nat.le_refl _
+  | grant => simp only [step] at h; cases h; exact Nat.le_refl _
+  | limit => simp only [step] at h; cases h; exact Nat.le_refl _
+
+theorem run_keeps {h : List (Inp × Op)} : ∀ {s s' : St}, run s h = .ok s' → WinOk s → WinOk s' ∧ s'.mds = s.mds := by
+  induction h with
+  | nil => intro s s' hr hw; simp only [run] at hr; cases hr; exact ⟨hw, rfl⟩
+  | cons x rest ih =>
+    intro s s' hr hw
+    obtain ⟨i, op⟩ := x
+    simp only [run, ebind_ok] at hr
+    obtain ⟨r, h1, h2⟩ := hr
+    obtain ⟨s1, o⟩ := r
+    have k := step_keeps h1 hw
+    have k2 := ih h2 k.1
+    exact ⟨k2.1, k2.2.trans k.2⟩
+
+theorem initSt_win {server : Bool} {mtu mad : Nat} {s : St} (h : initSt server mtu mad = .ok s) :
+    WinOk s ∧ s.mds = mtu := by
+  unfold initSt at h
+  split at h
+  · cases h
+  · split at h
+    · cases h
+    · cases h
+      unfold WinOk
+      simp [initWindowDatagrams, initWindowMinDatagrams, initWindowBytes]
+      omega
+
+/-! ### growth happens only through `ackGrow` outside recovery -/
+
+theorem onCongestionEvent_in_recovery {s : St} {t : Nat} (h : inRecovery s t = true) :
+    onCongestionEvent s t = .ok s := by
+  unfold onCongestionEvent; simp [h]
+
+theorem onPacketAcked_rs (s : St) (p : Pkt) : (onPacketAcked s p).rs = s.rs := by
+  unfold onPacketAcked ackGrow ackBytes
+  split
+  · rfl
+  · split <;> split <;> (try split) <;> rfl
+
+theorem onPacketAcked_grows {s : St} {p : Pkt} (h : s.cwnd < (onPacketAcked s p).cwnd) :
+    p.cc = true ∧ inRecovery s p.ts = false := by
+  unfold onPacketAcked at h
+  split at h
+  · omega
+  · rename_i hc
+    refine ⟨by simpa using hc, ?_⟩
+    unfold ackGrow at h
+    have hrs : (ackBytes s p).rs = s.rs := by
+      unfold ackBytes; split <;> rfl
+    have hr : inRecovery (ackBytes s p) p.ts = inRecovery s p.ts := by
+      unfold inRecovery; rw [hrs]
+    have hcw : (ackBytes s p).cwnd = s.cwnd := by
+      unfold ackBytes; split <;> rfl
+    split at h
+    · omega
+    · rename_i hn
+      rw [hr] at hn
+      simpa using hn
+
+theorem ackWalk_rs (f : Nat → Bool) (l : List Pkt) (s : St) (a : AckAcc) : (ackWalk f l s a).2.1.rs = s.rs := by
+  induction l with
+  | nil => rfl
+  | cons p ps ih =>
+    unfold ackWalk
+    generalize (ackWalk f ps s a) = w at *
+    obtain ⟨ps', x, a'⟩ := w
+    simp only at ih ⊢
+    split
+    · simp only; rw [onPacketAcked_rs]; exact ih
+    · exact ih
+
+theorem ackWalk_grows (f : Nat → Bool) (l : List Pkt) (s : St) (a : AckAcc)
+    (h : s.cwnd < (ackWalk f l s a).2.1.cwnd) :
+    ∃ p ∈ l, f p.pn = true ∧ p.st ≠ PSt.A ∧ p.cc = true ∧ inRecovery s p.ts = false := by
+  induction l with
+  | nil => simp [ackWalk] at h
+  | cons p ps ih =>
+    have hrs := ackWalk_rs f ps s a
+    unfold ackWalk at h
+    generalize (ackWalk f ps s a) = w at *
+    obtain ⟨ps', x, a'⟩ := w
+    simp only at ih h hrs
+    split at h
+    · rename_i hc
+      simp only at h
+      by_cases hx : s.cwnd < x.cwnd
+      · obtain ⟨q, hq, hq2⟩ := ih hx
+        exact ⟨q, List.mem_cons_of_mem _ hq, hq2⟩
+      · have hg : x.cwnd < (onPacketAcked x p).cwnd := by omega
+        have k := onPacketAcked_grows hg
+        have hr : inRecovery x p.ts = inRecovery s p.ts := by unfold inRecovery; rw [hrs]
+        simp only [Bool.and_eq_true, bne_iff_ne, ne_eq] at hc
+        exact ⟨p, List.mem_cons_self, hc.1, hc.2, k.1, hr ▸ k.2⟩
+    · obtain ⟨q, hq, hq2⟩ := ih h
+      exact ⟨q, List.mem_cons_of_mem _ hq, hq2⟩
+
+theorem updLargest_sent (s : St) (e n : Nat) : (getSp (updLargest s e n) e).sent = (getSp s e).sent := by
+  unfold updLargest; simp
+
+theorem updLargest_rs (s : St) (e n : Nat) : (updLargest s e n).rs = s.rs := by
+  unfold updLargest; simp
+
+theorem updLargest_cwnd (s : St) (e n : Nat) : (updLargest s e n).cwnd = s.cwnd := by
+  unfold updLargest; simp
+
+theorem onAckRcvd_grows {s s' : St} {i : Inp} {e : Nat} {a : Ack} {l : List (Nat × List Nat)}
+    (h : onAckRcvd s i e a = .ok (s', l)) (hw : WinOk s) (hg : s.cwnd < s'.cwnd) :
+    ∃ p ∈ (getSp s e).sent, inRanges a.ranges p.pn = true ∧ p.st ≠ PSt.A ∧ p.cc = true ∧
+      inRecovery s p.ts = false := by
+  unfold onAckRcvd at h
+  simp only at h
+  have k0 := updLargest_win e a.largest hw
+  have hc0 := updLargest_cwnd s e a.largest
+  split at h
+  · have := (ackPost_win h k0.1).2.2.2; omega
+  · -- the window after the walk bounds everything that follows
+    have hwalk : s'.cwnd ≤ (spaceOnAck (updLargest s e a.largest) e a).1.cwnd := by
+      have k1 := spaceOnAck_keeps e a k0.1
+      split at h
+      · exact (ackPost_win h k1.1).2.2.2
+      · simp only [ebind_ok] at h
+        obtain ⟨s1, h1, d, h2, s2, h3, h4⟩ := h
+        obtain ⟨d1, d2⟩ := d
+        have k2 := processEcn_win h1 k1.1
+        have k3 := detectLost_win h2 k2.1
+        have k4 := resetPto_win k3.1
+        have k5 := setTimer_win h3 k4.1
+        have k6 := ackPost_win h4 k5.1
+        exact (k2.trans (k3.trans (k4.trans (k5.trans k6)))).2.2.2
+    have hsp : (spaceOnAck (updLargest s e a.largest) e a).1.cwnd =
+        (ackWalk (inRanges a.ranges) (getSp (updLargest s e a.largest) e).sent (updLargest s e a.largest) {}).2.1.cwnd := by
+      unfold spaceOnAck; simp
+    have hgw : (updLargest s e a.largest).cwnd <
+        (ackWalk (inRanges a.ranges) (getSp (updLargest s e a.largest) e).sent (updLargest s e a.largest) {}).2.1.cwnd := by
+      omega
+    obtain ⟨p, hp, h1, h2, h3, h4⟩ := ackWalk_grows _ _ _ _ hgw
+    rw [updLargest_sent] at hp
+    refine ⟨p, hp, h1, h2, h3, ?_⟩
+    unfold inRecovery at h4 ⊢
+    rw [updLargest_rs] at h4
+    exact h4
+
+/-! ### loss detection marks only in-flight packets, by one of the two thresholds -/
+
+theorem lossWalk_lost (T ld L : Nat) (l : List Pkt) : ∀ (k : Nat) (lt : Option Nat),
+    ∀ x ∈ (lossWalk T ld L l k lt).2.1, ∃ p ∈ l, p.st = PSt.I ∧ x.2 = { p with st := PSt.R } ∧
+      (p.ts < T ∨ x.1 + packetThreshold ≤ L) := by
+  induction l with
+  | nil => intro k lt x hx; simp [lossWalk] at hx
+  | cons p ps ih =>
+    intro k lt x hx
+    unfold lossWalk at hx
+    split at hx
+    · rename_i hI
+      split at hx
+      · rename_i hc
+        have ih' := ih (k + 1) lt
+        generalize (lossWalk T ld L ps (k + 1) lt) = w at *
+        obtain ⟨ps', lost, lt'⟩ := w
+        simp only [List.mem_cons] at hx
+        rcases hx with hx | hx
+        · subst hx
+          refine ⟨p, List.mem_cons_self, by simpa using hI, rfl, ?_⟩
+          simp only [Bool.or_eq_true, decide_eq_true_eq] at hc
+          rcases hc with hc | hc
+          · exact Or.inl hc
+          · exact Or.inr hc
+        · obtain ⟨q, hq, hq2⟩ := ih' x hx
+          exact ⟨q, List.mem_cons_of_mem _ hq, hq2⟩
+      · simp only at hx
+        obtain ⟨q, hq, hq2⟩ := ih _ _ x hx
+        exact ⟨q, List.mem_cons_of_mem _ hq, hq2⟩
+    · have ih' := ih (k + 1) lt
+      generalize (lossWalk T ld L ps (k + 1) lt) = w at *
+      obtain ⟨ps', lost, lt'⟩ := w
+      obtain ⟨q, hq, hq2⟩ := ih' x hx
+      exact ⟨q, List.mem_cons_of_mem _ hq, hq2⟩
+
+theorem lossWalk_keeps (T ld L : Nat) (l : List Pkt) : ∀ (k : Nat) (lt : Option Nat) (q : Pkt),
+    q ∈ l → q.st ≠ PSt.I → q ∈ (lossWalk T ld L l k lt).1 := by
+  induction l with
+  | nil => intro k lt q hq; simp at hq
+  | cons p ps ih =>
+    intro k lt q hq hst
+    unfold lossWalk
+    simp only [List.mem_cons] at hq
+    split
+    · rename_i hI
+      have hpq : q ≠ p := by
+        intro h; subst h; exact hst (by simpa using hI)
+      have hq' : q ∈ ps := by rcases hq with h | h; exact absurd h hpq; exact h
+      split
+      · have ih' := ih (k + 1) lt q hq' hst
+        generalize (lossWalk T ld L ps (k + 1) lt) = w at *
+        obtain ⟨ps', lost, lt'⟩ := w
+        exact List.mem_cons_of_mem _ ih'
+      · simp only
+        exact List.mem_cons_of_mem _ (ih _ _ q hq' hst)
+    · rcases hq with h | h
+      · subst h
+        generalize (lossWalk T ld L ps (k + 1) lt) = w
+        obtain ⟨ps', lost, lt'⟩ := w
+        exact List.mem_cons_self
+      · have ih' := ih (k + 1) lt q h hst
+        generalize (lossWalk T ld L ps (k + 1) lt) = w at *
+        obtain ⟨ps', lost, lt'⟩ := w
+        exact List.mem_cons_of_mem _ ih'
+
+/-! ### one reduction per recovery period (without the persistent-loss branch) -/
+
+theorem lostFold_le (r : Nat) (l : List Pkt) : ∀ (b : Nat) (t0 : Option Nat),
+    (∀ p ∈ l, p.cc = true → p.ts ≤ r) → (∀ t, t0 = some t → t ≤ r) →
+    ∀ t, (lostFold l b t0).2 = some t → t ≤ r := by
+  induction l with
+  | nil => intro b t0 _ h0 t ht; simp only [lostFold] at ht; exact h0 t ht
+  | cons p ps ih =>
+    intro b t0 hl h0 t ht
+    unfold lostFold at ht
+    have hps : ∀ q ∈ ps, q.cc = true → q.ts ≤ r := fun q hq => hl q (List.mem_cons_of_mem _ hq)
+    split at ht
+    · rename_i hc
+      have hp := hl p List.mem_cons_self hc
+      refine ih _ _ hps ?_ t ht
+      intro t' ht'
+      split at ht'
+      · rename_i x
+        cases ht'
+        have := h0 x rfl
+        omega
+      · cases ht'; exact hp
+    · exact ih _ _ hps h0 t ht
+
+theorem onPacketsLost_in_recovery {s s' : St} {l : List Pkt} {r : Nat} (h : onPacketsLost s l false = .ok s')
+    (hrs : s.rs = some r) (hl : ∀ p ∈ l, p.cc = true → p.ts ≤ r) : s'.cwnd = s.cwnd ∧ s'.rs = s.rs := by
+  unfold onPacketsLost at h
+  simp only at h
+  split at h
+  · cases h
+  · rename_i s2 h2
+    simp only [Bool.false_eq_true, if_false] at h
+    cases h
+    split at h2
+    · rename_i t ht
+      have hle := lostFold_le r l s.bytes none hl (by intro t h; cases h) t ht
+      have hin : inRecovery { s with bytes := (lostFold l s.bytes none).1 } t = true := by
+        unfold inRecovery; simp [hrs, hle]
+      rw [onCongestionEvent_in_recovery hin] at h2
+      cases h2; exact ⟨rfl, rfl⟩
+    · cases h2; exact ⟨rfl, rfl⟩
